@@ -34,6 +34,7 @@ RULE = ('random cores on 1-3 hex rings (7/19 positions, quick: up to 7), '
         '0.003-0.15, random power maps, constant properties; non-trivial '
         'when >= 2 assemblies exchange > 1 W through the gap in some step; '
         'distinct by (layout, types, gap option)')
+RULE += (' Later rounds added: cores with two axial boundaries closer than one step (the lower one a region boundary).')
 DECIDING = ['J1_asm_mesh_vs_gap_mesh', 'J2_gap_balance', 'J3_core_step']
 CASE_TIMEOUT = {'quick': 200, 'thorough': 900}
 BUDGET = {'quick': 700, 'thorough': 3300}
